@@ -33,6 +33,12 @@
 //!          act = (act x<LISTEN_FDS> x<LISTEN_FDNAMES> <LISTEN_PID is the child's pid>
 //!                     <VARLINK_ADDRESS is unix:<name of fd 3>> <fd 3 is a listening unix socket, inheritable>
 //!                     <the connection's address equals VARLINK_ADDRESS>) | (noact)
+//!
+//!   (act3 <world>)
+//!       `Connection::with_activate` from a process whose descriptors from 3 up are closed, so that the
+//!       listener of `varlink_exec` already is descriptor 3 (the branch that clears close-on-exec
+//!       instead of dup2), then one GetInfo call
+//!       -> (act3 (reply x<vendor>) <act>) | (act3 (fail x<why>) (noact))
 use crate::rng::Rng;
 use crate::suites::wire;
 use crate::sx::{self, Sx};
@@ -506,6 +512,44 @@ fn run_xport(ctx: &Ctx, l: &[Sx]) -> Sx {
     sx::tagged("xport", res)
 }
 
+fn run_act3(ctx: &Ctx, l: &[Sx]) -> Sx {
+    let spec = WorldSpec::from_sx(&l[1]).expect("world");
+    let sub = Subst::new(ctx, "a");
+    let specfile = format!("{}/spec", sub.dir);
+    std::fs::write(&specfile, spec.to_sx().render() + "\n").unwrap();
+    let dump = format!("{}/dump.json", sub.dir);
+    let out = format!("{}/out", sub.dir);
+    let child = std::process::Command::new(helper_path())
+        .arg("actclient")
+        .arg(&specfile)
+        .arg(&dump)
+        .arg(&out)
+        .stdin(std::process::Stdio::null())
+        .spawn()
+        .expect("spawn helper");
+    let mut guard = ChildGuard::new(child);
+    let st = guard.wait_timeout(Duration::from_secs(8));
+    let d = read_dump(&dump, Duration::from_millis(100));
+    if let Some(d) = &d {
+        if let Some(p) = d["pid"].as_i64() {
+            guard.extra_pids.push(p as i32);
+        }
+    }
+    let res = match (st, std::fs::read_to_string(&out).ok().and_then(|t| sx::parse(&t))) {
+        (None, _) => vec![sx::tagged("fail", vec![sx::xs("timeout")]), sx::tagged("noact", vec![])],
+        (_, Some(Sx::List(r))) if r[0].as_atom() == Some("ok") => {
+            let pid = r[2].as_usize().unwrap_or(0) as u32;
+            let address = r[3].as_str().unwrap_or_default();
+            vec![sx::tagged("reply", vec![r[1].clone()]), act_sx(d, &address, pid)]
+        }
+        (_, Some(Sx::List(r))) => vec![sx::tagged("fail", vec![r.get(1).cloned().unwrap_or(sx::atom("-"))]), sx::tagged("noact", vec![])],
+        _ => vec![sx::tagged("fail", vec![sx::xs("no report")]), sx::tagged("noact", vec![])],
+    };
+    drop(guard);
+    let _ = std::fs::remove_dir_all(&sub.dir);
+    sx::tagged("act3", res)
+}
+
 // ---------------------------------------------------------------------------
 // generators
 
@@ -750,6 +794,13 @@ impl Suite for AddrSuite {
                 }
             }
         }
+        // the listener already is descriptor 3 (C16-F2)
+        for cfg in wire::configs().iter().take(if ctx.thorough { 4 } else { 2 }) {
+            cases.push(Case {
+                input: sx::tagged("act3", vec![WorldSpec::plain(cfg.sx.clone()).to_sx()]),
+                tags: vec!["kind:act3".into()],
+            });
+        }
         let mut tok = 0usize;
         for _ in 0..n_xport {
             let (c, tags) = gen_xport(&mut rng, &mut tok, ctx.thorough);
@@ -764,6 +815,7 @@ impl Suite for AddrSuite {
             "parse" => run_parse(ctx, l),
             "actenv" => run_actenv(ctx, l),
             "xport" => run_xport(ctx, l),
+            "act3" => run_act3(ctx, l),
             other => panic!("case kind {}", other),
         }
     }
